@@ -368,6 +368,37 @@ fn bound_values(p: &MockProver<Fq>, inst_col: usize) -> Vec<Fq> {
     out
 }
 
+/// The advice cell (column, row) bound to each row of instance column `inst_col`
+/// (None where the row is bound to a constant only).
+pub fn bound_cells(p: &MockProver<Fq>, inst_col: usize) -> Vec<Option<(usize, usize)>> {
+    use rayon::iter::ParallelIterator;
+    let cols = p.permutation().columns().to_vec();
+    let Some(ci) = cols.iter().position(|c| kind(c) == 2 && c.index() == inst_col) else {
+        return vec![];
+    };
+    let mapping: Vec<Vec<(usize, usize)>> = p.permutation().mapping().map(|c| c.collect::<Vec<_>>()).collect();
+    let mut out = vec![];
+    for row in 0..mapping[ci].len() {
+        if mapping[ci][row] == (ci, row) {
+            break;
+        }
+        let mut cur = mapping[ci][row];
+        let mut cell = None;
+        let mut guard = 0;
+        while cur != (ci, row) && guard < 1 << 20 {
+            let c = cols[cur.0];
+            if kind(&c) == 0 {
+                cell = Some((c.index(), cur.1));
+                break;
+            }
+            cur = mapping[cur.0][cur.1];
+            guard += 1;
+        }
+        out.push(cell);
+    }
+    out
+}
+
 /// Binds the instance to what the copy constraints tie it to and runs the checker.
 pub fn bind_and_verify(p: &mut MockProver<Fq>) -> (MockVerdict, Vec<Fq>, Vec<Fq>) {
     let bound_committed = bound_values(p, 0);
